@@ -127,7 +127,7 @@ def sweep_plan(tier):
         if tier == "quick":
             # token-boundary stratum, one case per content for both byte kinds
             cases.append({"content": cid, "lexer": lexer, "kind": "torn_prefix", "mode": "boundaries", "cap": 160})
-            if cid.split(".", 1)[1] in ("multi2", "nested", "strings", "mlhdr", "half", "unbal", "arrowparam", "arrowmix", "arrowcall", "async", "cont", "record", "ns", "prop", "macro"):
+            if cid.split(".", 1)[1] in ("multi2", "nested", "strings", "mlhdr", "half", "unbal", "arrowparam", "arrowmix", "arrowcall", "async", "cont", "contdef", "record", "ns", "prop", "macro", "twins", "uni"):
                 cases.append({"content": cid, "lexer": lexer, "kind": "lost_head", "mode": "boundaries", "cap": 160})
                 cases.append({"content": cid, "lexer": lexer, "kind": "lost_line"})
                 cases.append({"content": cid, "lexer": lexer, "kind": "swap_lines"})
@@ -198,8 +198,10 @@ def gen_world(i, R, rng, sw):
             a2 = rng.randrange(0, max(1, n))
             ops.append({"op": "corrupt", "path": target, "kind": k2,
                         "arg": [a2, rng.choice(F.FLIP_VALUES)] if k2 == "flip_byte" else a2})
+    if rng.random() < 0.2:
+        ops.append({"op": "set_yml", "patterns": [], "verbose": True})
     ops.append({"op": "scan", "nonce": G.nonce(rng), "spelling": rng.choice(("dot", "abs", "rel_parent", "dotdot", "rel_outside", "symlink")),
-                "target": target})
+                "target": target, "verbose": rng.random() < 0.25})
     parent = target.rsplit("/", 1)[0] if "/" in target else "."
     top = target.split("/")[0] if "/" in target else "."
     checks = [
